@@ -842,6 +842,8 @@ pub fn late_push_programs() -> Vec<Program> {
         vec![lenter("a"), lenter("b"), levent("b.e"), pop(), lprop("a.k", "a.v"), pop(), levent("top.e")],
         vec![lenter("a"), levent("a.e"), Op::BusyWait { micros: 300 }],
         vec![lenter("a"), lenter("b"), Op::BusyWait { micros: 300 }],
+        vec![lenter("a"), lenter("b"), pop(), Op::BusyWait { micros: 300 }],
+        vec![lenter("a"), lenter("b"), levent("b.e"), pop(), lenter("c"), pop(), Op::BusyWait { micros: 300 }],
         vec![Op::LocalEnter { name: "a".into(), props: p("ck", "cv") }, pop(), lenter("b"), lprop("b.k", "b.v"), pop()],
     ];
     for shape in &shapes {
